@@ -111,11 +111,12 @@ Definition dom_len1 (ci : cinfo) (len : option Z) (dtype : option pstr) : res (o
       then Err eObjectInit else Ok (Some l)
   end.
 
-(* len(d): Python refuses a negative __len__ *)
-Definition obj_len (h : list obj) (i : nat) : res Z :=
+(* d.length: the plain attribute, read by DomainS.identifiers (no len(), hence no
+   ValueError/OverflowError for a negative or huge length) *)
+Definition obj_length (h : list obj) (i : nat) : res Z :=
   match hget h i with
   | Some o => match o_data o with
-              | DDom l => if (l <? 0)%Z then Err eValue else Ok l
+              | DDom l => Ok l
               | _ => Err eType
               end
   | None => Err eBadRequest
@@ -131,23 +132,22 @@ Definition dom_nested (rec : state -> pstr -> option Z -> state * cout)
   let cn := cname_of nm in
   match len1, starred nm with
   | None, true =>
-      (* length = len(cls(cname, length = None)) ; except SingletonError: pass *)
+      (* length = cls(cname, length = None).length ; except SingletonError: pass *)
       let '(s1, r) := rec st cn None in
       match r with
       | CRet o _ =>
-          match obj_len (heap s1) o with
+          match obj_length (heap s1) o with
           | Ok l => (collect s1, Ok (Some l))
           | Err k => (collect s1, Err k)
           end
       | CErr k _ => if is_singleton_err k then (collect s1, Ok None) else (s1, Err k)
       end
   | Some l, false =>
-      if Z.eqb l 0 then (st, Ok len1) else
-      (* clength = len(cls(cname)); cls(cname, length = length) *)
+      (* clength = cls(cname).length; cls(cname, length = length) *)
       let '(s1, r) := rec st cn None in
       match r with
       | CRet o _ =>
-          match obj_len (heap s1) o with
+          match obj_length (heap s1) o with
           | Err k => (collect s1, Err k)
           | Ok cl =>
               let '(s2, r2) := rec (collect s1) cn (Some l) in
@@ -162,12 +162,11 @@ Definition dom_nested (rec : state -> pstr -> option Z -> state * cout)
       | CErr k _ => if is_singleton_err k then (collect s1, Ok len1) else (s1, Err k)
       end
   | Some l, true =>
-      if Z.eqb l 0 then (st, Ok len1) else
-      (* try: clength = len(cls(cname)) except SingletonError: clength = length *)
+      (* try: clength = cls(cname).length except SingletonError: clength = length *)
       let '(s1, r) := rec st cn None in
       match r with
       | CRet o _ =>
-          match obj_len (heap s1) o with
+          match obj_length (heap s1) o with
           | Err k => (collect s1, Err k)
           | Ok cl => (collect s1, if Z.eqb cl l then Ok len1 else Err eSingleton)
           end
